@@ -115,7 +115,17 @@ mod verif_c13 {
         let v: f64 = kani::any();
         let mut s = AnySerializer.serialize_map(Some(1)).unwrap();
         SerializeMap::serialize_key(&mut s, &k).unwrap();
-        assert!(matches!(&s.key, Some(a) if equiv(emitted(a), Ev::I32(k))));
+        // the pending key denotes k: either as an integer, or already in the string form it has in a JSON document (the
+        // property fixes the round trip and the document, not the internal slot)
+        let e = match &s.key {
+            Some(a) => emitted(a),
+            None => Ev::None_,
+        };
+        let wire_form = match &s.key {
+            Some(crate::any::Any(crate::any::Inner::String(t))) => t.parse::<i32>() == Ok(k),
+            _ => false,
+        };
+        assert!(equiv(e, Ev::I32(k)) || wire_form);
         assert!(s.map.is_empty());
         std::mem::forget(s);
         kani::cover!(true);
